@@ -179,7 +179,7 @@ class Exec:
             (r"AbortOnPanic", guard),
         ]
 
-    def run_schedule(self, path, n_remote, cap, iterations, same_task):
+    def run_schedule(self, path, n_remote, cap, iterations, same_task, preempt_bound=None):
         W = type("W", (), {})()
         W.violation = None
         W.hot = []
@@ -249,6 +249,8 @@ class Exec:
         alive = set(threads)
         verdict = "ok"
         steps = 0
+        last_run = None
+        preemptions = 0
         while alive:
             if W.violation:
                 verdict = W.violation
@@ -260,8 +262,14 @@ class Exec:
                 elif any(k.startswith("R") for k in alive):
                     verdict = "remote waker spins forever on a full queue while the executor is parked"
                 break
-            i = path.choose(len(runnable), "sched")
-            th = runnable[i]
+            if preempt_bound is not None and last_run in runnable and preemptions >= preempt_bound:
+                th = last_run                      # context bound reached: the running thread keeps the CPU
+            else:
+                i = path.choose(len(runnable), "sched")
+                th = runnable[i]
+                if last_run in runnable and th != last_run:
+                    preemptions += 1
+            last_run = th
             blocked.pop(th, None)
             try:
                 ev = next(threads[th])
@@ -280,7 +288,7 @@ class Exec:
         return verdict, steps
 
 
-def explore_schedules(ex, n_remote, cap, iterations, same_task, seed=0, max_paths=400000):
+def explore_schedules(ex, n_remote, cap, iterations, same_task, seed=0, max_paths=400000, preempt_bound=None):
     from explore import _expand
     stack = [[]]
     npaths = steps = queries = 0
@@ -289,7 +297,7 @@ def explore_schedules(ex, n_remote, cap, iterations, same_task, seed=0, max_path
         dec = stack.pop()
         p = Path(dec, seed)
         try:
-            verdict, st = ex.run_schedule(p, n_remote, cap, iterations, same_task)
+            verdict, st = ex.run_schedule(p, n_remote, cap, iterations, same_task, preempt_bound)
         except Infeasible:
             _expand(stack, dec, p, upto=p.pos)
             continue
